@@ -973,7 +973,7 @@ func (src *Pkgsrc) Relpath(from, to CurrPath) RelPath {
 	// This is the most common variant in a complete pkgsrc scan.
 	if cto == "." {
 		fromParts := cfrom.Parts()
-		if len(fromParts) == 2 && fromParts[0] != ".." {
+		if len(fromParts) == 2 && fromParts[0] != ".." && !cfrom.IsAbs() {
 			return "../.."
 		}
 	}
